@@ -645,7 +645,8 @@ func (fv *FuncVC) applyContract(site ssa.Instruction, fc *FuncContract, key stri
 // the semantics of Go's append lifted over callees that use the accumulator only through append):
 // the result slice holds exactly the abstract sequence; it is the argument's array when the
 // sequence fits into the argument's capacity and a fresh array otherwise; memory changes only in
-// the argument's spare capacity [ptr+len, ptr+cap) and in memory allocated during the call.
+// the argument's spare capacity [ptr+len, ptr+cap) (only in the appended positions when the
+// result fits) and in memory allocated during the call.
 func (fv *FuncVC) concretize(short, name string, abs Term, arg Term, pre *State, rt types.Type) Term {
 	r := fv.freshConst(fmt.Sprintf("res.%s.%s.conc", mangle(short), mangle(name)), SSlice)
 	r.T = rt
@@ -660,7 +661,9 @@ func (fv *FuncVC) concretize(short, name string, abs Term, arg Term, pre *State,
 	fv.assumeHere(implies(not(fits), and(le(brk0, slPtr(r)), le(add(slPtr(r), slCap(r)), brk1))))
 	old := fv.heap(fv.cur, "M", SInt)
 	nh := fv.newHeapVersion("M")
-	lo, hi := add(slPtr(arg), slLen(arg)), add(slPtr(arg), slCap(arg))
+	// while everything fits only the appended positions are written; after a reallocation
+	// earlier appends may have filled any part of the old spare capacity
+	lo, hi := add(slPtr(arg), slLen(arg)), add(slPtr(arg), ite(fits, n, slCap(arg)))
 	fv.assumeHere(Term{S: fmt.Sprintf("(forall ((a!f Int)) (! (=> (and (< a!f %s) (or (< a!f %s) (>= a!f %s))) (= (select %s a!f) (select %s a!f))) :pattern ((select %s a!f))))",
 		brk0.S, lo.S, hi.S, nh.S, old.S, nh.S), Sort: SBool})
 	fv.assume(Term{S: byteHeapFact(nh), Sort: SBool})
